@@ -448,8 +448,27 @@ def lean_type(v):
     raise GenError("cannot type %r" % (v,))
 
 
+def choose_literals(lname, harvested, pinned):
+    """Positional literal lists parameterise the hand-written models (`lit l i`).  A change of a VALUE must reach
+    the model (the theorems are then re-checked against the new constant); a change of the SHAPE of the list (a
+    rewrite that adds, drops or reorders literals: `min(11, max(0, q))` -> `q.clamp(0, 11)`) makes the positions
+    meaningless.  Rule: same list -> harvested; same length and a different multiset -> harvested (a constant was
+    edited); otherwise (different length, or a permutation) -> the pinned list (tools/lits.pinned.json) is kept,
+    the item is reported as reshaped, and what ties the model to the code for that function is the
+    correspondence run (a semantic change then shows as a model/implementation disagreement)."""
+    p = pinned.get(lname)
+    if p is None or harvested == p:
+        return harvested, None
+    if len(harvested) == len(p) and sorted(harvested) != sorted(p):
+        return harvested, None
+    if len(harvested) == len(p):
+        return p, "the literals are a permutation of the pinned list"
+    return p, "%d literals now, %d pinned" % (len(harvested), len(p))
+
+
 def main():
-    outdir = sys.argv[1] if len(sys.argv) > 1 else "/verif/lean/BV/Gen"
+    outdir = [a for a in sys.argv[1:] if not a.startswith("--")]
+    outdir = outdir[0] if outdir else "/verif/lean/BV/Gen"
     os.makedirs(outdir, exist_ok=True)
     env = {}
     lines = ["-- GENERATED by tools/gen_source.py from the current /repo working tree. Do not edit.",
@@ -471,6 +490,13 @@ def main():
            "def fingerprints : List (String × String × Nat × String) := ["]
     fp_rows = []
     fp_json = {}
+    pinned_path = os.path.join(os.path.dirname(os.path.abspath(__file__)), "lits.pinned.json")
+    try:
+        pinned_lits = json.load(open(pinned_path))
+    except (OSError, ValueError):
+        pinned_lits = {}
+    harvested_all = {}
+    reshaped = []
     for it in FN_ITEMS:
         path, fname, occ = it["file"], it["fn"], it.get("occ", 0)
         try:
@@ -481,11 +507,25 @@ def main():
             fp_json["%s::%s#%d" % (path, fname, occ)] = fp
             if it.get("literals"):
                 lname = it.get("lean", "lits_" + fname)
-                lines.append("/-- integer literals of `fn %s` (%s), in source order -/" % (fname, path))
-                lines.append("def %s : List Nat := %s" % (lname, lean_val([abs(x) for x in lits])))
+                harvested = [abs(x) for x in lits]
+                harvested_all[lname] = harvested
+                use, why = choose_literals(lname, harvested, pinned_lits)
+                if why:
+                    reshaped.append("%s (%s): %s" % (lname, path, why))
+                lines.append("/-- integer literals of `fn %s` (%s), in source order%s -/" % (fname, path, "" if not why else " — PINNED list kept: " + why))
+                lines.append("def %s : List Nat := %s" % (lname, lean_val(use)))
                 lines.append("")
         except (GenError, OSError, IndexError) as e:
-            errors.append("%s::fn %s: %s" % (path, fname, e))
+            lname = it.get("lean", "lits_" + fname)
+            if it.get("literals") and lname in pinned_lits:
+                # the function is gone (renamed / inlined / rewritten beyond the tokenizer): the models keep the
+                # pinned literals; the correspondence run is what ties them to the code in that case
+                reshaped.append("%s (%s): function not found (%s); pinned list kept" % (lname, path, e))
+                lines.append("/-- integer literals of `fn %s` (%s): function NOT FOUND in the current tree, PINNED list kept -/" % (fname, path))
+                lines.append("def %s : List Nat := %s" % (lname, lean_val(pinned_lits[lname])))
+                lines.append("")
+            else:
+                errors.append("%s::fn %s: %s" % (path, fname, e))
     fps.append(",\n".join(fp_rows))
     fps.append("]")
     fps.append("")
@@ -510,8 +550,11 @@ def main():
     c1 = write_if_changed(os.path.join(outdir, "Source.lean"), "\n".join(lines) + "\n")
     c2 = write_if_changed(os.path.join(outdir, "Fingerprints.lean"), "\n".join(fps) + "\n")
     write_if_changed(os.path.join(outdir, "fingerprints.json"), json.dumps(fp_json, indent=1, sort_keys=True) + "\n")
+    if "--pin-lits" in sys.argv:
+        with open(pinned_path, "w") as f:
+            json.dump(harvested_all, f, indent=0, sort_keys=True)
     print(json.dumps({"changed_source": c1, "changed_fingerprints": c2, "errors": errors,
-                      "items": len(CONST_ITEMS), "fns": len(FN_ITEMS)}))
+                      "items": len(CONST_ITEMS), "fns": len(FN_ITEMS), "literals_reshaped": reshaped}))
     return 2 if errors else 0
 
 
